@@ -132,7 +132,8 @@ def main():
     proof = prove('Properties_C16.v')
     handle_proof(rep, proof, 'see correspondence results of this run')
     cases = gen_cases(sd, tr); byid = {c['id']: c for c in cases}
-    cfgs = quick_grid() if tr == 'quick' else thorough_grid()
+    # the horizontal-add variants of the horizontal sums / products (FASTOR_USE_HADD) are separate code
+    cfgs = (quick_grid() if tr == 'quick' else thorough_grid()) + [Config('avx2', 'c++14', '-O2', ['FASTOR_USE_HADD']), Config('sse42', 'c++17', '-O2', ['FASTOR_USE_HADD']), Config('avx512', 'c++14', '-O2', ['FASTOR_USE_HADD'])]
     nshard = 4 if tr == 'quick' else 12
     shards = [cases[i::nshard] for i in range(nshard)]
     ocaml_ready()
